@@ -110,10 +110,15 @@ def check_case(rec, case: dict) -> None:
     be = out.chart.sync_track.bpm_events
     dq = model.Diffs()
     for t in case.get("queries", []):
-        ts, _ = be.timestamp_at_tick(t)
-        model.check_time(dq, tm, t, us(ts), "direct query")
-        ts2 = be.timestamp_at_tick_no_optimize_return(t)
-        model.check_time(dq, tm, t, us(ts2), "direct query")
+        # a query for a non-negative tick of a chart that parsed has an answer: an exception here is a wrong answer, not a harness error
+        try:
+            ts, _ = be.timestamp_at_tick(t)
+            model.check_time(dq, tm, t, us(ts), "direct query")
+            ts2 = be.timestamp_at_tick_no_optimize_return(t)
+            model.check_time(dq, tm, t, us(ts2), "direct query")
+        except Exception as e:  # noqa
+            if tm.exact(t) < model.TIME_LIMIT_US:
+                dq.add("C01", "time", f"direct query at tick {t} (asked after {case['queries'][:case['queries'].index(t)][-3:]}) raised {harness.exc_str(e)}")
     rec.ev(dq.evals.get("C01", 0))
     for k, v in dq.classes.items():
         rec.cls(k, v)
@@ -164,6 +169,16 @@ def run_shard(shard, rec, tier, seed):
             q = gen.interesting_ticks(rng, tm, min(hz, case["horizon"] + 10**6), 24)
             q += [0, min(hz, tm.ticks[-1] + 10**6), min(hz, tm.ticks[-1] + 1)]
             case["queries"] = sorted(set(q))
+        # the ORDER in which a client asks is its own business: ascending, descending, shuffled, and the first tick asked once more
+        # at the end (an answer must not depend on what was asked before)
+        mode = i % 4
+        if mode == 1:
+            case["queries"] = case["queries"][::-1]
+        elif mode == 2:
+            rng.shuffle(case["queries"])
+        if mode and case["queries"]:
+            case["queries"] = case["queries"] + case["queries"][:1]
+        rec.cls(("queries_ascending", "queries_descending", "queries_shuffled", "queries_ascending_then_first_again")[mode])
         check_case(rec, case)
         keep.add(case)
         if i < 2:
